@@ -196,3 +196,50 @@ Fixpoint qrun1 (cas : bool) (s : qstate) (tr : list qev) : option (qstate * list
         end
       else None
   end.
+
+(* ---- refill sources: the ticker goroutines of ONE limiter (qpslimiter.go
+        newQPSLimiter / update / startTicker / stopTicker) ----
+   Every element of k_tickers is one goroutine sitting in startTicker's
+   [for range ticker.C]; the head is q.ticker.  time.Ticker.Stop does not close the
+   channel, so the goroutine of a stopped ticker stays blocked for ever (a goroutine
+   leak) but calls updateToken no more: only FIRING tickers refill. *)
+Record ticker := mkT { t_period : Z; t_firing : bool }.
+Record kstate := mkK { k_limit : Z; k_interval : Z; k_tickers : list ticker }.
+
+Definition kinit (l iv : Z) : kstate := mkK l iv [mkT iv true].
+
+Definition stop_head (ts : list ticker) : list ticker :=
+  match ts with
+  | [] => []
+  | t :: r => mkT (t_period t) false :: r
+  end.
+
+(* update(maxQPS, qpsInterval): nothing when both are unchanged; limit/once stored;
+   on an interval change: q.stopTicker(); q.ticker = time.NewTicker; go q.startTicker.
+   [stops = false] is the variant without the stopTicker call. *)
+Definition kupdate (stops : bool) (s : kstate) (l iv : Z) : kstate :=
+  if (l =? k_limit s) && (iv =? k_interval s) then s
+  else if iv =? k_interval s then mkK l iv (k_tickers s)
+  else mkK l iv (mkT iv true :: (if stops then stop_head (k_tickers s) else k_tickers s)).
+
+Fixpoint kupdates (stops : bool) (s : kstate) (us : list (Z * Z)) : kstate :=
+  match us with
+  | [] => s
+  | (l, iv) :: r => kupdates stops (kupdate stops s l iv) r
+  end.
+
+Definition firing_of (t : ticker) : Z := if t_firing t then 1 else 0.
+Definition firing (s : kstate) : Z := sumz firing_of (k_tickers s).
+Definition goroutines (s : kstate) : Z := Z.of_nat (length (k_tickers s)).
+
+(* upper bound on the updateToken calls in a wall-clock window of length w (same unit as
+   the periods): a firing ticker of period p fires at most w / p + 1 times *)
+Definition fires_of (w : Z) (t : ticker) : Z := if t_firing t then w / t_period t + 1 else 0.
+Definition fires_in (w : Z) (s : kstate) : Z := sumz (fires_of w) (k_tickers s).
+
+(* number of updates of the sequence that change the interval *)
+Fixpoint interval_changes (cur_l cur_iv : Z) (us : list (Z * Z)) : Z :=
+  match us with
+  | [] => 0
+  | (l, iv) :: r => (if iv =? cur_iv then 0 else 1) + interval_changes l iv r
+  end.
